@@ -92,9 +92,12 @@ class Message:
 
         # Parse headers into key/value pairs paying attention
         # to continuation lines.
+        nfields = 0
         while lines:
-            if len(headers) >= self.limit_request_fields:
+            # dropped header fields (header_map = "drop") count as well
+            if nfields >= self.limit_request_fields:
                 raise LimitRequestHeaders("limit request headers fields")
+            nfields += 1
 
             # Parse initial header name: value pair.
             curr = lines.pop(0)
